@@ -229,10 +229,10 @@ var (
 	}
 	c34Verbs    = []string{"get", "list", "watch", "create", "update", "patch", "delete", "deletecollection"}
 	c34Tiers    = []string{"default", "net-sec", "t1"}
-	c34Outcomes = []c34Outcome{
-		{k8sauth.DecisionAllow, false}, {k8sauth.DecisionDeny, false}, {k8sauth.DecisionNoOpinion, false},
-		{k8sauth.DecisionNoOpinion, true}, {k8sauth.DecisionDeny, true},
-	}
+	// The authorizer.Authorizer contract allows any decision together with an error (the union
+	// authorizer passes a sub-authorizer's error through with its decision), and the statement
+	// says "whatever the underlying authorizer answers": all 3 decisions x {nil, error}.
+	c34Decisions = []k8sauth.Decision{k8sauth.DecisionAllow, k8sauth.DecisionDeny, k8sauth.DecisionNoOpinion}
 )
 
 func c34Gen(t *rapid.T) *c34Case {
@@ -256,13 +256,15 @@ func c34Gen(t *rapid.T) *c34Case {
 			c.Req.Subresource = "status"
 		}
 	}
-	// outcomes: favour Allow so that the allowed side of the equivalence is as common as the refused side
+	// outcomes: favour Allow so that the allowed side of the equivalence is as common as the
+	// refused side; an error accompanies any decision a third of the time
 	for i := range c.Outcomes {
 		if rapid.IntRange(0, 9).Draw(t, "allow-"+c34CheckName[i]) < 6 {
-			c.Outcomes[i] = c34Outcomes[0]
+			c.Outcomes[i].Decision = k8sauth.DecisionAllow
 		} else {
-			c.Outcomes[i] = rapid.SampledFrom(c34Outcomes[1:]).Draw(t, "outcome-"+c34CheckName[i])
+			c.Outcomes[i].Decision = rapid.SampledFrom(c34Decisions[1:]).Draw(t, "decision-"+c34CheckName[i])
 		}
+		c.Outcomes[i].Err = rapid.IntRange(0, 2).Draw(t, "error-"+c34CheckName[i]) == 0
 	}
 	for i := range c.Steps {
 		c.Steps[i].Yields = rapid.IntRange(0, 3).Draw(t, "yields-"+c34CheckName[i])
@@ -284,8 +286,8 @@ func c34Shape(c *c34Case) string {
 func c34Property(t *testing.T, unit string) {
 	ev.Quiet()
 	rec := ev.New("C34", unit,
-		"request shapes (5 policy resources x verbs x named/unnamed/old- and new-style names x tiers) x a generated outcome (allow/deny/no-opinion, with or without an authorizer error) for each of the three checks x a schedule (yields, microsecond sleeps, optionally a forced answer order) x GOMAXPROCS in {1,2,4,8}; each case is executed several times; non-trivial = the three outcomes are not all equal; distinct = (request shape, outcomes, forced order)",
-		"the underlying authorizer answers each check with a fixed generated outcome; errors are only generated together with deny/no-opinion decisions",
+		"request shapes (5 policy resources x verbs x named/unnamed/old- and new-style names x tiers) x a generated outcome (allow/deny/no-opinion, each with or without an authorizer error: 6 per check) for each of the three checks x a schedule (yields, microsecond sleeps, optionally a forced answer order) x GOMAXPROCS in {1,2,4,8}; each case is executed several times; non-trivial = the three outcomes are not all equal; distinct = (request shape, outcomes, forced order)",
+		"the underlying authorizer answers each check with a fixed generated outcome: any of the three decisions, with or without an error; 'may' in the statement means the decision is Allow, errors do not count (the tier authorizer only logs them)",
 		"interleavings are those the Go scheduler produces under the generated yields/sleeps/forced orders, not an exhaustive schedule enumeration")
 	defer rec.Write()
 	reps := ev.Scale(6, 20)
@@ -309,6 +311,12 @@ func c34Property(t *testing.T, unit string) {
 		}
 		if o[0].Err || o[1].Err || o[2].Err {
 			cl = append(cl, "authorizer-error")
+		}
+		for i := range o {
+			if o[i].Err && o[i].Decision == k8sauth.DecisionAllow {
+				cl = append(cl, "allow-with-error")
+				break
+			}
 		}
 		if c.Finish != nil {
 			cl = append(cl, "forced-order")
